@@ -251,6 +251,14 @@ Watchdog(inos) ==
   /\ UNCHANGED <<cfg, base, pre, ptab, ctab, forked, nforks, execd, didExec, attempts, libpipes, maxAllocs, res,
                  reported, penv, pcwd, pass, parentStdTouched>>
 
+\* C08's consequence observed directly: the parent closed its end of a living command's stdin pipe while another launch
+\* (successful or failing) was under way on another thread; `us` = how long the command's end-of-file took to arrive.
+\* A forked child of the other launch holds a copy of that end only for the instants between fork and exec (or _exit).
+EofLatency(us) ==
+  /\ viol' = viol \cup V(us < 1000000, "C08_eof_as_soon_as_the_parent_closes")
+  /\ UNCHANGED <<cfg, base, pre, ptab, ctab, forked, nforks, execd, didExec, attempts, libpipes, maxAllocs, res,
+                 reported, penv, pcwd, pass, parentStdTouched, sanity>>
+
 \* ---------------------------------------------------------------- after the call (and after the harness let go)
 Post(t, children) ==
   LET pt == Tab(t) IN
